@@ -28,12 +28,37 @@ FORMS = [
 ]
 
 
+_NO_SHARED = {}
+
+
+def no_shared_python_state(flmod):
+    """Premise of the 'coarse' worlds (every thread uses its own FileLock object): no mutable state at module
+    or class level, so Python lines between two environment calls touch one object's private state only and
+    commute with everything the other threads do; interleaving at the environment calls (open / close / flock /
+    in-process lock operations / sleep) then covers every line-level interleaving. If a tree introduces shared
+    module/class state the premise fails and those worlds fall back to line granularity."""
+    if 'v' not in _NO_SHARED:
+        import threading
+        mutable = (dict, list, set, bytearray, type(threading.Lock()), type(threading.RLock()))
+        ok = True
+        for ns in [vars(flmod)] + [vars(c) for c in vars(flmod).values()
+                                   if isinstance(c, type) and c.__module__ == flmod.__name__]:
+            for k, v in ns.items():
+                if k.startswith('__') or k in ('_abc_impl',):
+                    continue
+                if isinstance(v, mutable) and not (k == '__all__'):
+                    ok = False
+        _NO_SHARED['v'] = ok
+    return _NO_SHARED['v']
+
+
 def run_world(flmod, w, path, prefix=(), expect=None):
     try:
         os.unlink(path)          # pristine lock file for every execution
     except FileNotFoundError:
         pass
     sched = tx.Sched(prefix, expect, horizon=100.0, budget=20000)
+    sched.line_points = not (w.get('coarse') and no_shared_python_state(flmod))
     env = Env(sched)
     env.install(flmod)
     bad = []
@@ -195,6 +220,21 @@ def worlds(tier):
         if q and len({c[1] for c in combo}) == 1 and combo[0][1] != 'acq':
             continue
         out.append(({'threads': [[c] for c in combo], 'nobj': 2, 'reentrant': False, 'default_timeout': -1}, 1))
+    # descriptor-number reuse: every thread has its own object (coarse points, see no_shared_python_state)
+    fa3 = [('nb', None), ('timed', D / 2)]
+    fb3 = [('acq', None), ('timed', 2 * D)] if q else [('acq', None), ('timed', 2 * D), ('with', None), ('ctx', None)]
+    for h in (0.0, D):
+        for fa in fa3:
+            for fbm in fb3:
+                for hb in (D,) if q else (0.0, D):
+                    out.append(({'threads': [[(0, 'acq', None, h)], [(1,) + fa + (0.0,)], [(2,) + fbm + (hb,)]],
+                                 'nobj': 3, 'reentrant': False, 'default_timeout': -1, 'coarse': True},
+                                2 if q else 3))
+    # ... and a winner that re-acquires (two rounds) next to a failing attempt
+    for fa in fa3 + [('timed', 2 * D)]:
+        for h2 in (0.0, D):
+            out.append(({'threads': [[(0, 'acq', None, 0.0), (0, 'acq', None, h2)], [(1,) + fa + (0.0,)]],
+                         'nobj': 2, 'reentrant': False, 'default_timeout': -1, 'coarse': True}, 3 if q else 4))
     if not q:
         for combo in itertools.product([(0, 'acq', None, D), (1, 'acq', None, 0.0), (1, 'timed', D / 2, 0.0)], repeat=4):
             out.append(({'threads': [[c] for c in combo], 'nobj': 2, 'reentrant': False, 'default_timeout': -1}, 1))
@@ -265,7 +305,8 @@ def main(tier):
               'length {0, D}, reentrant (nested x2) and non-reentrant, default timeouts {-1, 0, D/2}; every '
               'schedule with <= PB preemptions (2 on core worlds, else 1; thorough 2) and <= FB non-default '
               f'choices at blocking points (FB={fb}), line-granular in aiuti/filelock.py + lock/flock/open/close/'
-              'sleep operations, real kernel flock; oracle: a contender that reported success is the only one '
+              'sleep operations, real kernel flock; plus own-object worlds (each thread its own FileLock incl. a third '
+              'object, points only at environment calls, PB 2-3 / thorough 3-4) for descriptor-number reuse; oracle: a contender that reported success is the only one '
               'until it calls release, sections never overlap, failed contenders never enter, nothing left held'),
         assumptions=['one source line atomic', 'in-process locks are scheduler shims with threading.Lock/RLock '
                      'semantics', 'cross-process exclusion: engine C (C13 harness); the 16-process free-running '
